@@ -64,11 +64,11 @@ func sortText(sf []rm.SortField) string {
 }
 
 type c02Case struct {
-	pred     rm.Expr // nil = no predicate clause
-	sortBy   []rm.SortField
-	page     pageSpec
-	fields   []string
-	text     string
+	pred   rm.Expr // nil = no predicate clause
+	sortBy []rm.SortField
+	page   pageSpec
+	fields []string
+	text   string
 }
 
 func c02Cases(thorough bool) []c02Case {
